@@ -234,6 +234,12 @@ func tryFastCompound(expression string) *fastCompound {
 	return &fastCompound{op: op, parts: compares}
 }
 
+// maxExactInt is the largest magnitude below which every integer is exactly
+// representable as a float64. Wider integers must not take the float64 fast
+// path: the conversion rounds (2^53+1 == 2^53) and large uint64 values compare
+// differently from the general engine, which would change decisions.
+const maxExactInt = 1 << 53
+
 func toFloat64Fast(v any) (float64, bool) {
 	switch x := v.(type) {
 	case float64:
@@ -241,14 +247,26 @@ func toFloat64Fast(v any) (float64, bool) {
 	case float32:
 		return float64(x), true
 	case int:
+		if x > maxExactInt || x < -maxExactInt {
+			return 0, false
+		}
 		return float64(x), true
 	case int64:
+		if x > maxExactInt || x < -maxExactInt {
+			return 0, false
+		}
 		return float64(x), true
 	case int32:
 		return float64(x), true
 	case uint:
+		if x > maxExactInt {
+			return 0, false
+		}
 		return float64(x), true
 	case uint64:
+		if x > maxExactInt {
+			return 0, false
+		}
 		return float64(x), true
 	case uint32:
 		return float64(x), true
